@@ -127,6 +127,10 @@ func mkMsg(token string, id string, hasID bool) *sse.Message {
 
 var topicSets = [][]string{{"a"}, {"b"}, {"a", "b"}, {sse.DefaultTopic}, {"a", sse.DefaultTopic}, {"c"}}
 
+// topicSetsX: also lists with a repeated topic and lists of five and more topics
+var topicSetsX = append(append([][]string{}, topicSets...), []string{"a", "a"}, []string{"b", "a", "a"}, []string{"c", "c", "b"},
+	[]string{"a", "b", "c", "d", "e"}, []string{"d", "e", "f", "g", "h"}, []string{"h", "g", "f", "e", "d", "c"}, []string{"d"}, []string{"f", "g"})
+
 func eqStrings(a, b []string) bool {
 	if len(a) != len(b) {
 		return false
@@ -147,7 +151,26 @@ type c08Hist struct {
 	Ops  []string `json:"ops"`
 }
 
+// topicShare hands out, per replayer under test, one slice object per topic list: the very same
+// slice is passed to every Put with that list (as an application with a fixed set of topic lists
+// does), while the model keeps the master lists, which are never passed to go-sse.
+type topicShare map[string][]string
+
+func (ts topicShare) of(master []string) []string {
+	if master == nil {
+		return nil
+	}
+	k := strconv.Itoa(len(master)) + ":" + strings.Join(master, "\x00")
+	if sh, ok := ts[k]; ok {
+		return sh
+	}
+	sh := append(make([]string, 0, len(master)), master...)
+	ts[k] = sh
+	return sh
+}
+
 type c08State struct {
+	share topicShare
 	r     *fw.Run
 	key   string
 	rp    *sse.FiniteReplayer
@@ -182,7 +205,9 @@ func (s *c08State) put(topics []string, mode string) {
 		msg = mkMsg(tok, "", true)
 	case "wrong_id_mode":
 		if s.m.Auto {
-			msg = mkMsg(tok, "own-"+tok, true)
+			// an ID of the application's own: arbitrary, or looking like the IDs the replayer hands out
+			own := []string{"own-" + tok, strconv.FormatUint(s.m.NextID, 10), strconv.FormatUint(s.m.NextID+5, 10), "0"}[s.ntok%4]
+			msg = mkMsg(tok, own, true)
 		} else {
 			msg = mkMsg(tok, "", false)
 		}
@@ -207,7 +232,10 @@ func (s *c08State) put(topics []string, mode string) {
 	before := msg.String()
 	beforeSet := msg.ID.IsSet()
 	s.hist.Ops = append(s.hist.Ops, fmt.Sprintf("Put(%s,%s,topics=%v)", tok, mode, topics))
-	got, err := s.rp.Put(msg, topics)
+	if s.share == nil {
+		s.share = topicShare{}
+	}
+	got, err := s.rp.Put(msg, s.share.of(topics))
 	s.r.Count("puts", 1)
 	if msg.String() != before || msg.ID.IsSet() != beforeSet {
 		s.viol([]string{"put_mutates_argument"}, "Put modified the message it was given (%q -> %q)", before, msg.String())
@@ -493,19 +521,19 @@ func TestC08(t *testing.T) {
 			case x < 5:
 				if !auto && !usedEmpty && rng.IntN(6) == 0 {
 					usedEmpty = true
-					s.put(topicSets[rng.IntN(len(topicSets))], "empty_id")
+					s.put(topicSetsX[rng.IntN(len(topicSetsX))], "empty_id")
 				} else {
-					s.put(topicSets[rng.IntN(len(topicSets))], "valid")
+					s.put(topicSetsX[rng.IntN(len(topicSetsX))], "valid")
 				}
 				sig.WriteByte('P')
 			case x == 5:
-				s.put(topicSets[rng.IntN(len(topicSets))], []string{"wrong_id_mode", "no_topics", "empty_topics"}[rng.IntN(3)])
+				s.put(topicSetsX[rng.IntN(len(topicSetsX))], []string{"wrong_id_mode", "no_topics", "empty_topics"}[rng.IntN(3)])
 				sig.WriteByte('X')
 			default:
 				lo, nn := s.m.windowFinite(), len(s.m.Entries)
-				sub := topicSets[rng.IntN(len(topicSets))]
+				sub := topicSetsX[rng.IntN(len(topicSetsX))]
 				if rng.IntN(3) == 0 {
-					sub = append(append([]string{}, sub...), topicSets[rng.IntN(len(topicSets))]...)
+					sub = append(append([]string{}, sub...), topicSetsX[rng.IntN(len(topicSetsX))]...)
 				}
 				fs, ff := 0, 0
 				if rng.IntN(4) == 0 {
@@ -648,6 +676,7 @@ func TestC08(t *testing.T) {
 // ---- C09 ---------------------------------------------------------------------------------
 
 type c09State struct {
+	share topicShare
 	r     *fw.Run
 	key   string
 	rp    *sse.ValidReplayer
@@ -694,7 +723,10 @@ func (s *c09State) put(topics []string) {
 		msg = mkMsg(tok, id, true)
 	}
 	s.ops = append(s.ops, fmt.Sprintf("Put(%s,topics=%v)@%d", tok, topics, s.now.Sub(c09Epoch)))
-	got, err := s.rp.Put(msg, topics)
+	if s.share == nil {
+		s.share = topicShare{}
+	}
+	got, err := s.rp.Put(msg, s.share.of(topics))
 	s.r.Count("puts", 1)
 	if err != nil || got == nil {
 		s.viol([]string{"valid_put_rejected"}, "valid Put returned (%v,%v)", got, err)
@@ -724,7 +756,8 @@ func (s *c09State) badPut() {
 			msg = mkMsg(tok, "id-"+tok, true)
 		}
 	} else if s.m.Auto {
-		msg = mkMsg(tok, "own", true)
+		own := []string{"own", strconv.FormatUint(s.m.NextID, 10), strconv.FormatUint(s.m.NextID+7, 10), "0"}[(s.ntok/2)%4]
+		msg = mkMsg(tok, own, true)
 	} else {
 		msg = mkMsg(tok, "", false)
 	}
@@ -1027,7 +1060,7 @@ func TestC09(t *testing.T) {
 			}
 			switch {
 			case x < 9:
-				s.put(topicSets[rng.IntN(len(topicSets))])
+				s.put(topicSetsX[rng.IntN(len(topicSetsX))])
 				sig.WriteByte('P')
 				if rng.IntN(12) == 0 {
 					burst = 3 + rng.IntN(30) // grow the buffer
